@@ -35,6 +35,10 @@ RULES = {
  ("stateful_set_control.go", 543): "outside: upstream's extra rule 'an unready condemned pod is only deleted if it is the first unhealthy pod' is not part of C05 (desired pods are all Ready at that point, the target is the highest)",
  ("stateful_set_control.go", 578): "equiv: partition 0 either way",
 }
+RULES[("stateful_set_control.go", 653)] = "outside: blockOwnerDeletion on the owner reference of an adopted revision; the properties ask for a controlling reference by UID"
+RULES[("stateful_set_control.go", 674)] = "dead: json.Marshal of the patch struct cannot fail"
+RULES[("stateful_set_control.go", 738)] = "equiv: writing zero bytes to the hash"
+RULES[("stateful_set_control.go", 753)] = "equiv: truncating a 223-byte prefix to 223 bytes"
 RULES[("expansion_generated.go", 61)] = "dead: a lister List never fails"
 RULES[("expansion_generated.go", 68)] = "dead: the list is already scoped to the pod's namespace"
 for l in (76, 89, 102, 114, 122, 138, 150, 239, 240, 248, 253, 262, 267, 276, 281, 294, 299):
